@@ -222,6 +222,14 @@ def sysLine (m : MState) (line : String) : MState :=
     let w := sampleConfigId w "/simul_efun.c"
     ({ m with sys := { m.sys with w := w } }).emit s!"restarted {w.configId}"
   | "expect" :: _ => m
+  | "corrupt" :: name :: _ =>
+    -- the file is damaged (truncated or a byte changed), its mtime kept: the checksum no longer matches
+    let bp := binPath m.sys.w name
+    match m.sys.w.bins.lookup bp with
+    | some b =>
+      ({ m with sys := { m.sys with w := { m.sys.w with
+          bins := (bp, { b with intact := false }) :: m.sys.w.bins.filter (·.1 != bp) } } }).emit s!"corrupted {name}"
+    | none => m.emit s!"corrupt-nofile {name}"
   | "reload" :: top :: fam =>
     if !m.cleaned then m.emit "badcase reload-before-clean" else
     let fam := top :: fam
